@@ -1,5 +1,8 @@
 import PlasVerif.Proofs.Counters
 import PlasVerif.Proofs.Roman
+import PlasVerif.Proofs.EnumLists
+import PlasVerif.Proofs.Format
+import PlasVerif.Proofs.Untouched
 /-!
 # C08 — Counters and automatic numbers follow LaTeX's numbering rules
 
@@ -79,6 +82,20 @@ theorem roman_standard (n : Nat) : represent (n : Int) "Roman" = .ok (roman n) :
   simp [represent, numToRoman, roman, romanChars_nat]
 
 example : PlasVerif.Model.Counters.romanChars 1994 = ['M', 'C', 'M', 'X', 'C', 'I', 'V'] := by decide
+
+/-- The structural version (digit decomposition, no table evaluation): whenever the regenerated body of `numToRoman`
+    is the three scaled copies of the four-statement digit program `if ≥9u / while ≥5u / if ≥4u / while ≥u`
+    (`u` = 100, 10, 1) - a decidable condition on the table, true for the pinned source (see the example) - it
+    produces the standard numeral for every `n`: thousands by induction, each decimal digit by the scaling lemma
+    `runStmt_scale` and ten closed digit cases. -/
+theorem roman_standard_structural (h : romanStmts = stages) (n : Nat) :
+    PlasVerif.Model.Counters.romanChars (n : Int) = PlasVerif.Spec.NumberingRules.romanChars n :=
+  romanChars_nat_of n (low_table_structural romanStmts h)
+
+/-- non-vacuity: the statement list of the pinned `numToRoman` (literal copy) has that shape -/
+example : [(false, 900, ['C', 'M']), (true, 500, ['D']), (false, 400, ['C', 'D']), (true, 100, ['C']),
+      (false, 90, ['X', 'C']), (true, 50, ['L']), (false, 40, ['X', 'L']), (true, 10, ['X']),
+      (false, 9, ['I', 'X']), (true, 5, ['V']), (false, 4, ['I', 'V']), (true, 1, ['I'])] = stages := by decide
 
 /-- the characters of `\Roman` for every `n`, independent of `String` -/
 theorem roman_chars_standard (n : Nat) :
@@ -168,6 +185,52 @@ theorem consecutive_numbers (st st1 st2 st3 : St) (tag tag' : String) (c : Name)
   have a2 := (step_resets_exactly _ _ c (v + 1) hv2 e2).2.2.2 hacyc2
   exact ⟨a1, by rw [a2]; congr 1; omega⟩
 
+/-- "No intervening reset or set", syntactically.  Let `A` be a family of counters closed under "is reset by"
+    (decidable `closedB`; e.g. a counter together with everything above it in the reset forest).  A history in which
+    no event names a counter of `A` - no object, theorem environment, `\setcounter`/`\addtocounter`/`\stepcounter`,
+    `\newcounter`/`\newtheorem`, `\appendix` on one of them; list events count as naming `enumi…enumiv`
+    (decidable, executable `historyAvoids`) - leaves every counter of `A` at its value, keeps `A` closed, and adds no
+    declaration for a counter of `A`.  Any length, any mixture of the other constructs. -/
+theorem counters_untouched_by_history (A : List String) (evs : List Ev) (st st' : St)
+    (hcl : closedB (skel st.store) A = true) (hav : historyAvoids A st evs = true) (h : run st evs = .ok st') :
+    (∀ x ∈ A, val st'.store x = val st.store x) ∧ closedB (skel st'.store) A = true ∧
+    (∀ x ∈ A, ∀ p, (x, p) ∈ skel st'.store → (x, p) ∈ skel st.store) :=
+  PlasVerif.Proofs.Untouched.history_frame A evs st st' hcl hav h
+
+/-- Consecutive numbering over arbitrary histories, with the side condition as a decidable predicate on the history:
+    two unstarred objects of the counter `c`, separated by any history that names neither `c` nor a counter above it
+    (`A` closed, `c ∈ A`), carry the values `v+1` and `v+2`. -/
+theorem consecutive_numbers_history (A : List String) (st st1 st2 st3 : St) (tag tag' : String) (c : Name)
+    (l l' : Int) (v : Int) (evs : List Ev) (hc : c ≠ "") (hcA : c ∈ A)
+    (hv : val st.store c = some v) (hacyc : ¬ Within (skel st.store) c c)
+    (hcl : closedB (skel st.store) A = true)
+    (h1 : step st (.construct tag c false l) = .ok st1)
+    (hav : historyAvoids A st1 evs = true) (hmid : run st1 evs = .ok st2)
+    (h2 : step st2 (.construct tag' c false l') = .ok st3) :
+    val st1.store c = some (v + 1) ∧ val st3.store c = some (v + 2) := by
+  -- the first object does not change the reset table
+  obtain ⟨s, hs, hcap⟩ := construct_ok st st1 tag c l hc h1
+  have hst1 : st1.store = s := capture_store _ _ _ _ _ hcap
+  have hsk1 : skel st1.store = skel st.store := by
+    rw [hst1]; exact PlasVerif.Proofs.EnumLists.step_enum_skel st.store s c v hv hs
+  have hcl1 : closedB (skel st1.store) A = true := by rw [hsk1]; exact hcl
+  have fr := PlasVerif.Proofs.Untouched.history_frame A evs st1 st2 hcl1 hav hmid
+  have hacyc2 : ¬ Within (skel st2.store) c c := fun hw =>
+    hacyc (by
+      have := PlasVerif.Proofs.Untouched.within_old A (skel st1.store) (skel st2.store) hcl1 fr.2.2 hw hcA
+      rwa [hsk1] at this)
+  exact consecutive_numbers st st1 st2 st3 tag tag' c l l' v evs hc hv hacyc h1 hmid (fr.1 c hcA) hacyc2 h2
+
+/-- non-vacuity: in book, between two subsections one may have equations, figures, theorems, lists, `\setcounter` on
+    other counters …; the family above `subsection` is closed, and such a history avoids it -/
+example : closedB (skel (initSt bookCounters bookThes 2).store) ["subsection", "section", "chapter", "volume"] = true := by
+  decide +kernel
+example : historyAvoids ["subsection", "section", "chapter", "volume"] (initSt bookCounters bookThes 2)
+    [.construct "equation" "equation" false 201, .beginList, .item "item" false, .item "item" false, .endList,
+     .construct "caption" "figure" false 1001, .setc "equation" 7, .newcounter "mine" (some "subsection"),
+     .construct "subsubsection" "subsubsection" false 3] = true := by
+  decide +kernel
+
 /-- Numbered within: after any object of the unit `c`, every counter declared within it (a theorem counter
     `\newtheorem{thm}{..}[c]`, a `\newcounter{x}[c]`, the class's own sub-units) restarts: its value is 0. -/
 theorem numbered_within_resets (st st1 : St) (tag : String) (c x : Name) (l : Int) (v w : Int)
@@ -206,6 +269,63 @@ theorem trimLeft_strips_exactly (k : Nat) (t : List Char) (ht : ∀ r, t ≠ '0'
 
 example : trim "0.0.3".toList = ['3'] := by decide
 
+/-- **Format evaluation is nested substitution.**  For every table of `\the…` macros, every store and every macro:
+    the interpreter (the model of `TheCounter.invoke`, with its recursion budget) returns `r` for some budget exactly
+    when `r` is the declarative nested substitution of the format - literal text as is, `${c.fmt}` the representation
+    of the counter, `${the…}` the referenced macro's own substituted format with its own `trimLeft`. -/
+theorem fmt_eval (env : TheEnv) (s : Store) (m : Name) (r : String) :
+    (∃ f, evalThe f env s m = .ok r) ↔ Denotes env s m r :=
+  ⟨fun ⟨f, h⟩ => PlasVerif.Proofs.Format.evalThe_sound env s f m r h,
+   fun h => by
+    obtain ⟨f0, h0⟩ := PlasVerif.Proofs.Format.evalThe_complete env s m r h
+    exact ⟨f0, h0 f0 (Nat.le_refl _)⟩⟩
+
+/-- The substitution is a function: a macro denotes at most one string (evaluation order and budget are irrelevant). -/
+theorem fmt_eval_deterministic (env : TheEnv) (s : Store) (m : Name) (r r' : String)
+    (h : Denotes env s m r) (h' : Denotes env s m r') : r = r' :=
+  PlasVerif.Proofs.Format.denotes_unique env s m r r' h h'
+
+/-- On an acyclic table (decidable rank certificate `macroRankedB`, rank bounded by the table size) the budget the
+    model actually uses - one level per macro in the table, i.e. Python's recursion limit is never the issue - computes
+    exactly the nested substitution. -/
+theorem fmt_eval_model_fuel (env : TheEnv) (s : Store) (rank : Name → Nat) (hr : macroRankedB env rank = true)
+    (m : Name) (hb : rank m ≤ env.length) (r : String) :
+    evalThe (theFuel env) env s m = .ok r ↔ Denotes env s m r := by
+  constructor
+  · exact PlasVerif.Proofs.Format.evalThe_sound env s _ m r
+  · intro h
+    obtain ⟨f0, h0⟩ := PlasVerif.Proofs.Format.evalThe_complete env s m r h
+    have := h0 (max f0 (theFuel env)) (by omega)
+    rwa [PlasVerif.Proofs.Format.fuel_irrelevant env s rank hr (max f0 (theFuel env)) (theFuel env) m
+      (by simp [theFuel]; omega) (by simp [theFuel]; omega)] at this
+
+/-- The regenerated `\the…` tables of book and article are acyclic under the standard rank (kernel-checked on the
+    tables of the current source), also after `\appendix` redefined the top unit. -/
+theorem class_tables_ranked (d : Int) :
+    macroRankedB (initSt bookCounters bookThes d).thes stdRank = true ∧
+    macroRankedB (initSt articleCounters articleThes d).thes stdRank = true ∧
+    (∀ m, stdRank m ≤ (initSt bookCounters bookThes d).thes.length) ∧
+    (∀ m, stdRank m ≤ (initSt articleCounters articleThes d).thes.length) := by
+  have h1 : macroRankedB (initSt bookCounters bookThes 0).thes stdRank = true := by decide +kernel
+  have h2 : macroRankedB (initSt articleCounters articleThes 0).thes stdRank = true := by decide +kernel
+  have h3 : (7 : Nat) ≤ (initSt bookCounters bookThes 0).thes.length := by decide
+  have h4 : (7 : Nat) ≤ (initSt articleCounters articleThes 0).thes.length := by decide
+  have hle : ∀ m, stdRank m ≤ 7 := fun m => by unfold stdRank; exact List.idxOf_le_length
+  exact ⟨h1, h2, fun m => Nat.le_trans (hle m) h3, fun m => Nat.le_trans (hle m) h4⟩
+
+/-- non-vacuity: in book, chapter 3 / section 2 / subsection 5 prints `3.2.5`; a figure before the first chapter
+    prints `4` (`0.` trimmed), after `\appendix` the chapter prints `C` -/
+example : (evalThe 23 (initSt bookCounters bookThes 2).thes
+      [⟨"chapter", none, 3⟩, ⟨"section", none, 2⟩, ⟨"subsection", none, 5⟩] "thesubsection").toOption = some "3.2.5" := by
+  decide +kernel
+example : (evalThe 23 (initSt bookCounters bookThes 2).thes [⟨"chapter", none, 0⟩, ⟨"figure", none, 4⟩] "thefigure").toOption
+    = some "4" := by decide +kernel
+example : ((run (initSt bookCounters bookThes 2) [.construct "chapter" "chapter" false 0, .appendix "chapter",
+      .construct "chapter" "chapter" false 0, .construct "chapter" "chapter" false 0,
+      .construct "chapter" "chapter" false 0, .construct "section" "section" false 1]).toOption.map
+        (·.outs.reverse.map (·.ref))) = some [some "1", some "A", some "B", some "C", some "C.1"] := by
+  decide +kernel
+
 /-! ## lists -/
 
 /-- In a list at nesting depth 1..4 an unlabelled `\item` is a numbered object of `enumi` … `enumiv`. -/
@@ -217,18 +337,73 @@ theorem item_uses_depth_counter (st : St) (tag : String) :
   refine ⟨fun h => ?_, fun h => ?_, fun h => ?_, fun h => ?_⟩ <;>
     simp [step, h, pyIndex, listCounters]
 
-/-- Full statement for enumerate (kept as a statement; see the comment below): from any state with an acyclic class
-    table, every `\begin{list}` at depth < 4 followed by `k` unlabelled items prints 1 … k. -/
-def enumerate_counts_from_one_statement : Prop :=
-  ∀ (st : St) (k : Nat), 0 ≤ st.depth → st.depth < 4 →
-    (∀ i : Nat, st.depth ≤ i → i < 4 → ∀ n, listCounters[i]? = some n → val st.store n = some 0) →
-    ∃ st', run st (.beginList :: List.replicate k (.item "item" false)) = .ok st' ∧
-      (st'.outs.take k).reverse.map (·.ref) = (List.range k).map fun i => some (toString (i + 1))
-/- Proved parts: `item_uses_depth_counter` (which counter an item steps), `consecutive_numbers` (successive objects of
-   one counter carry v+1, v+2), `numbered_within_resets` (an item of the outer list restarts the inner counter, since
-   `enumii` is declared within `enumi` …), `labelled_item_does_not_count`.  Missing for the full statement: the
-   invariant that `List.invoke` leaves every `enum` counter at index ≥ depth at 0 (begin resets the deeper counters,
-   end resets from the list's own index), the format hypothesis `\theenum… = arabic`, and the induction over `k`.
-   The document stream `doc8` checks the statement itself on every generated list against the LaTeX oracle. -/
+/-- The regenerated class tables satisfy the list well-formedness predicate (decidable, checked by the kernel on the
+    tables of the current source): in the state right after `\documentclass{book}` / `{article}` the four list
+    counters exist and are 0, a list counter is reset only by list counters of outer levels (`enumChainB`),
+    `\theenum…` is `\arabic{enum…}`, and no list is open. -/
+theorem class_tables_list_wellformed (d : Int) :
+    ListInv (initSt bookCounters bookThes d) [] ∧ ListInv (initSt articleCounters articleThes d) [] := by
+  have hb : ListInv (initSt bookCounters bookThes 0) [] := by decide +kernel
+  have ha : ListInv (initSt articleCounters articleThes 0) [] := by decide +kernel
+  -- `ListInv` does not look at `secnumdepth`
+  exact ⟨hb, ha⟩
+
+/-- The invariant of `List.invoke` - every list counter at index ≥ depth is 0, the counter of every open list holds
+    its item count - is preserved by every event of a well-nested history that does not manipulate `enumi…enumiv`
+    explicitly (`listSafe`): sectioning, equations, captions, theorem-like environments, `\setcounter` & co. on other
+    counters, `\newcounter`, `\newtheorem`, `\appendix`, and the list events themselves at any nesting ≤ 4. -/
+theorem list_invariant_preserved (st st' : St) (stk stk' : List Nat) (e : Ev) (hinv : ListInv st stk)
+    (hsafe : listSafe e = true) (hstk : stackStep stk e = some stk') (h : step st e = .ok st') :
+    ListInv st' stk' :=
+  PlasVerif.Proofs.EnumLists.listInv_step st st' stk stk' e hinv hsafe hstk h
+
+/-- … and therefore by whole histories. -/
+theorem list_invariant_history (evs : List Ev) (st st' : St) (stk stk' : List Nat) (hinv : ListInv st stk)
+    (hsafe : ∀ e ∈ evs, listSafe e = true) (hstk : stackAfter stk evs = some stk') (h : run st evs = .ok st') :
+    ListInv st' stk' :=
+  PlasVerif.Proofs.EnumLists.listInv_run evs st st' stk stk' hinv hsafe hstk h
+
+/-- **Enumerate items count 1, 2, 3 … within their list, restarting in every nested list; `\item[label]` does not
+    count.**  After *any* history `pre` (any length, any mixture of the numbered constructs, counter manipulation,
+    declarations and nested lists up to four deep) that does not touch `enumi…enumiv` explicitly, started in a state
+    consistent with the stack `stk` of open lists (e.g. right after `\documentclass`, `class_tables_list_wellformed`),
+    an unlabelled `\item` prints `k + 1`, where `k` is the number of unlabelled items the innermost open list has had so
+    far - `stackAfter` is LaTeX's stack discipline: `\begin{list}` pushes 0 (so every list, nested or not, restarts at
+    1), `\end{list}` pops (so the outer list continues where it was), an unlabelled item adds one, a labelled item and
+    every other event leave the counts alone. -/
+theorem enumerate_counts_from_one (st st1 st2 : St) (stk r : List Nat) (k : Nat) (pre : List Ev) (tag : String)
+    (hinv : ListInv st stk) (hsafe : ∀ e ∈ pre, listSafe e = true)
+    (hpre : run st pre = .ok st1) (hstk : stackAfter stk pre = some (k :: r))
+    (hitem : step st1 (.item tag false) = .ok st2) :
+    st2.outs = ⟨tag, some (toString (k + 1))⟩ :: st1.outs ∧ ListInv st2 ((k + 1) :: r) := by
+  have hinv1 := PlasVerif.Proofs.EnumLists.listInv_run pre st st1 stk (k :: r) hinv hsafe hstk hpre
+  exact ⟨PlasVerif.Proofs.EnumLists.item_prints st1 st2 k r tag hinv1 hitem,
+    PlasVerif.Proofs.EnumLists.listInv_step st1 st2 (k :: r) ((k + 1) :: r) (.item tag false) hinv1 rfl
+      (by simp [stackStep]) hitem⟩
+
+/-- … and on an acyclic store (height function as in `reset_terminates`) the item never raises. -/
+theorem enumerate_item_returns (st : St) (k : Nat) (r : List Nat) (tag : String) (hinv : ListInv st (k :: r))
+    (h : Name → Nat) (hr : Ranked (skel st.store) h) (hb : ∀ x, h x ≤ st.store.length) :
+    ∃ st', step st (.item tag false) = .ok st' :=
+  PlasVerif.Proofs.EnumLists.item_returns st k r tag hinv h hr hb
+
+/-- The same for a whole list program: a history of `\begin{list}` / `\end{list}` / `\item` / `\item[label]` events
+    (any length, nesting ≤ 4) prints exactly LaTeX's item trace - 1, 2, 3 … in every list, nothing for labelled items. -/
+theorem enumerate_program_prints (evs : List Ev) (st st' : St) (stk : List Nat) (outs : List Out)
+    (hinv : ListInv st stk) (htrace : itemTrace stk evs = some outs) (h : run st evs = .ok st') :
+    st'.outs = outs.reverse ++ st.outs :=
+  PlasVerif.Proofs.EnumLists.itemTrace_run evs st st' stk outs hinv htrace h
+
+/-- non-vacuity: `enumerate{ item item enumerate{ item item[x] item } item enumerate{ item } }` from the book class
+    prints 1 2 (1 - 2) 3 (1) -/
+example : itemTrace [] [.beginList, .item "i" false, .item "i" false, .beginList, .item "i" false, .item "i" true,
+      .item "i" false, .endList, .item "i" false, .beginList, .item "i" false, .endList, .endList]
+    = some [⟨"i", some "1"⟩, ⟨"i", some "2"⟩, ⟨"i", some "1"⟩, ⟨"i", none⟩, ⟨"i", some "2"⟩, ⟨"i", some "3"⟩,
+            ⟨"i", some "1"⟩] := by decide +kernel
+
+example : ((run (initSt bookCounters bookThes 2) [.beginList, .item "i" false, .item "i" false, .beginList,
+      .item "i" false, .item "i" true, .item "i" false, .endList, .item "i" false, .beginList, .item "i" false,
+      .endList, .endList]).toOption.map (·.outs.reverse.map (·.ref)))
+    = some [some "1", some "2", some "1", none, some "2", some "3", some "1"] := by decide +kernel
 
 end PlasVerif.Properties.C08
